@@ -24,6 +24,12 @@ def run(c):
         "the fault fields are kept); the model runs on the RCPT TO argument (key of every status) and the domain of the EFFECTIVE address (rewriteRcpt: any table). Two DIFFERENT RCPT TO arguments "
         "delivered under ONE effective address to a target that reports per recipient (LMTP) are not generated: the pipeline's reverse translation is a map keyed by the effective address "
         "(known finding KF-C09-1, judged by the C09 check); such recipient lists are generated with targets that do not report per recipient, chains without a shared effective address keep the reporting targets",
+        "recipient spellings: RCPT TO arguments that are not the normalized form of the address (mixed-case / NFD / upper-case non-ASCII / quoted local part, upper-case or absolute domain, "
+        "A- and U-label of the second name `dé<j>.example` of every routed domain) are generated for plain recipients and alias families alike; the model treats the ASCII ones like the plain address and the "
+        "non-ASCII ones like its non-ASCII kind (553 without SMTPUTF8) - it runs on the RCPT command index, every status has to come back to the command it belongs to",
+        "bucket tables (op lines `C03 b`): the bucket tables of the ip / source scopes are given 1-3 buckets and a 2 h reap interval through the exported fields of limiters.BucketSet (the constructor of limits.Group fixes "
+        "20010 / 1 min), time passes by making every bucket look older (BucketSet reads time.Now() itself); limiters never block (16 permits, at most 7 sessions at once); the endpoint's backend is wrapped so that a panic "
+        "inside Session.Logout is counted (C03/panic) instead of ending the test process; ip keys are IPv4 addresses",
         "go-smtp's parser and the TCP layer are outside the model: the model starts from the parsed command (token) and its well-formedness class; "
         "BDAT is only sent while the server holds an accepted recipient (a BDAT refused with 502 leaves its chunk on the wire to be parsed as commands)",
         "LMTP success theorem: proved for recipients whose address was accepted once in the transaction (C03_lmtp_success_stmt is the unrestricted statement; duplicates are covered by the differential runs only)",
@@ -56,7 +62,13 @@ def run(c):
         "6 limits blocks (concurrency and rate limiters in the all / ip / source scopes, either order, scopes missing); permits out per scope read from the real limiter state (all buckets); "
         "independently the typestate / reply / permit monitor (c03Monitor) judges every real session; "
         "plus limit time-outs (TestVerifC03LimitTimeouts): a session holding the single permit of the all / ip / source scope while 1-3 other sessions start a transaction and are refused with 451 "
-        "when TakeMsg gives up, the limiter state compared before / after the time-outs and at the end",
+        "when TakeMsg gives up, the limiter state compared before / after the time-outs and at the end; "
+        "RCPT TO spellings that are not the normalized address (local part mixed case / NFD / upper-case non-ASCII / quoted, domain upper case / absolute / A-label / U-label of a second name of the routed domain, "
+        "45% of the plain LMTP recipients, 18% SMTP) crossed with per-recipient body-stage failures for exactly these recipients; recovered panics are a violation of their own (C03/panic); "
+        "plus bucket-table histories (TestVerifC03BucketReap, op lines `C03 b`): endpoints whose ip / source bucket tables hold 1-3 buckets with a reap interval passing in virtual time, "
+        "sessions that keep a transaction open per key, floods of sessions with fresh keys (incl. refusals by a full table), time steps shorter and longer than the interval, a second and third transaction of a held key "
+        "(same address and domain, same address only, same domain only), transactions ended by DATA / RSET / QUIT / abrupt close in any order; after EVERY step the real limiter state (users and every semaphore of every bucket) "
+        "is compared with the transactions the client knows to be open, per scope and key, and with the Lean bucket model (BSt.steps)",
         explanation="theorems over all command lists, configurations, fault plans and fan-out orders; the model (go-smtp connection layer + Session + msgpipelineDelivery) is tied to the code by differential runs of whole sessions",
         search=search,
     )
